@@ -5,6 +5,8 @@ package main
 
 import (
 	"fmt"
+	"os"
+	"runtime/debug"
 	"go/ast"
 	"go/constant"
 	"go/token"
@@ -53,6 +55,10 @@ func (e *Engine) NewFnCtx(fn *ssa.Function, c *FuncContract) *FnCtx {
 }
 
 func (fc *FnCtx) havocHeap() {
+	if os.Getenv("GOVC_DEBUG") != "" {
+		fmt.Fprintf(os.Stderr, "DEBUG havocHeap in %s block %s\n", fc.name, fc.cur.Name)
+		debug.PrintStack()
+	}
 	fc.stateVar("alloc", SInt, false)
 	old := fc.lookup("alloc")
 	fc.havocAllHeap()
@@ -119,6 +125,11 @@ func (fc *FnCtx) findLoops() error {
 			if phi, ok := in.(*ssa.Phi); ok && phi.Comment == "rangeindex" {
 				li.rangeIdx = phi
 			}
+			if ld, ok := in.(*ssa.UnOp); ok && ld.Op == token.MUL {
+				if a, ok := ld.X.(*ssa.Alloc); ok && a.Comment == "rangeindex" {
+					li.rangeCell = a
+				}
+			}
 			if nx, ok := in.(*ssa.Next); ok {
 				li.rangeNext = nx
 				if r, ok := nx.Iter.(*ssa.Range); ok {
@@ -126,7 +137,7 @@ func (fc *FnCtx) findLoops() error {
 				}
 			}
 		}
-		if li.rangeIdx != nil {
+		if li.rangeIdx != nil || li.rangeCell != nil {
 			// pattern: t2 = phi + 1; t3 = t2 < tlen
 			for _, in := range li.Header.Instrs {
 				if bo, ok := in.(*ssa.BinOp); ok && bo.Op == token.LSS {
@@ -227,7 +238,44 @@ func (fc *FnCtx) Translate() (err error) {
 		fc.doBlock(b)
 	}
 	fc.checkUnmatched()
+	fc.checkFrame()
 	return nil
+}
+
+// checkFrame: a declared modifies clause must cover everything the body may
+// write (static check on the write set).
+func (fc *FnCtx) checkFrame() {
+	c := fc.contract
+	if c == nil || !c.HasMod {
+		return
+	}
+	declared := newWS()
+	fc.modifiesToWS(c, declared)
+	if declared.All {
+		return
+	}
+	delete(fc.eng.writeSetMemo, fc.fn)
+	actual := fc.funcWrites(fc.fn, 0)
+	var extra []string
+	if actual.All {
+		extra = append(extra, "<unknown effects: a callee without contract or model>")
+	}
+	for _, n := range actual.sorted() {
+		if n == "alloc" || declared.Names[n] {
+			continue
+		}
+		// memory allocated by the function itself is not part of the frame:
+		// approximated by allowing writes to element memory (Mem_*) only if declared
+		extra = append(extra, n)
+	}
+	if len(extra) > 0 {
+		fc.assertUnmatched(fmt.Sprintf("%s:modifies", fc.name), "body may write outside the declared frame: "+strings.Join(extra, ", "))
+	}
+}
+
+func (fc *FnCtx) nextCount(k string) int {
+	fc.counters[k]++
+	return fc.counters[k]
 }
 
 type transErr string
@@ -250,6 +298,13 @@ func (fc *FnCtx) setupEntry() {
 		fc.assume(fc.typeFacts(p.Type(), t, 1))
 	}
 	for _, fv := range fn.FreeVars {
+		if name, ok := fc.eng.sharedCell(fv); ok {
+			et := fv.Type().Underlying().(*types.Pointer).Elem()
+			fc.stateVar(name, u.SortOf(et), false)
+			fc.vals[fv] = Val{P: &Place{Kind: PCell, Var: name, Type: et}}
+			fc.assume(fc.typeFacts(et, fc.lookup(name), 1))
+			continue
+		}
 		c := "fv_" + mangle(fv.Name())
 		fc.declare(c, SInt)
 		t := Term{c, SInt}
@@ -288,7 +343,8 @@ func (fc *FnCtx) typeFacts(t types.Type, v Term, depth int) Term {
 		}
 		return TrueT
 	case *types.Slice:
-		return T(SBool, "(and (<= 0 (s_off %[1]s)) (<= 0 (s_len %[1]s)) (<= (s_len %[1]s) (s_cap %[1]s)) (>= (s_arr %[1]s) 0) (=> (= (s_arr %[1]s) 0) (= (s_cap %[1]s) 0)) (<= (+ (s_off %[1]s) (s_cap %[1]s)) 281474976710656))", v.S)
+		al := fc.lookup("alloc")
+		return And(T(SBool, "(<= (s_arr %s) %s)", v.S, al.S), T(SBool, "(and (<= 0 (s_off %[1]s)) (<= 0 (s_len %[1]s)) (<= (s_len %[1]s) (s_cap %[1]s)) (>= (s_arr %[1]s) 0) (=> (= (s_arr %[1]s) 0) (= (s_cap %[1]s) 0)) (<= (+ (s_off %[1]s) (s_cap %[1]s)) 281474976710656))", v.S))
 	case *types.Pointer, *types.Map, *types.Chan:
 		al := fc.lookup("alloc")
 		return T(SBool, "(and (>= %s 0) (<= %s %s))", v.S, v.S, al.S)
@@ -318,6 +374,10 @@ func (fc *FnCtx) doBlock(b *ssa.BasicBlock) {
 		}
 	}
 	fc.env = fc.mergeEdges(pb, fc.pend[b], phis)
+	fc.volatile = nil
+	if fc.volatileSet != nil && fc.afterGo[b] {
+		fc.volatile = fc.volatileSet
+	}
 	if li := fc.loops[b]; li != nil {
 		fc.loopHeader(li)
 	}
@@ -349,6 +409,13 @@ func (fc *FnCtx) edge(to *ssa.BasicBlock, cond Term) {
 			return
 		}
 	}
+	if from != nil {
+		for _, li := range fc.loopList {
+			if li.Spec != nil && li.Spec.Exhaustive && li.Blocks[from] && !li.Blocks[to] && from != li.Header {
+				fc.assert("exhaustive", fmt.Sprintf("%s:loop%d.noearlyexit#%d", fc.name, li.Ord, fc.nextCount(fmt.Sprintf("ex%d", li.Ord))), Not(cond), "the loop is left only when its condition fails (no break/goto out of it)", li.MinPos, false)
+			}
+		}
+	}
 	fc.pend[to] = append(fc.pend[to], &pendingEdge{from: fc.cur, cond: cond, env: fc.env.clone(), phis: phis})
 }
 
@@ -370,6 +437,13 @@ func (fc *FnCtx) autoInvariants(li *LoopInfo, env *Env) []Term {
 		phi := fc.lookupIn(env, fc.phiVar(li.rangeIdx))
 		ln := fc.term(li.rangeLen)
 		out = append(out, T(SBool, "(and (<= (- 1) %s) (or (< %s %s) (= %s (- 1))))", phi.S, phi.S, ln.S, phi.S))
+	}
+	if li.rangeCell != nil && li.rangeLen != nil {
+		if v, ok := fc.vals[li.rangeCell]; ok && v.P != nil {
+			c := fc.lookupIn(env, v.P.Var)
+			ln := fc.term(li.rangeLen)
+			out = append(out, T(SBool, "(and (<= (- 1) %s) (or (< %s %s) (= %s (- 1))))", c.S, c.S, ln.S, c.S))
+		}
 	}
 	if li.rangeNext != nil && li.rangeInstr != nil {
 		if me := fc.mapEnums[li.rangeInstr]; me != nil {
@@ -468,6 +542,24 @@ func (fc *FnCtx) backEdge(li *LoopInfo, cond Term, phis map[*ssa.Phi]Term) {
 			}
 			fc.assert("inv", name, t, inv.Src, li.MinPos, false)
 		}
+		if li.hasVar && false {
+		}
+	}
+	if fc.contract != nil {
+		for _, aa := range fc.contract.Asserts {
+			if aa.Anchor == "loopback" && aa.Ord == li.Ord && aa.Cl != nil {
+				aa.Matched++
+				sc := fc.loopScope(li, fc.env)
+				name := fmt.Sprintf("%s:%s.back.assert#%d", fc.name, lname, aa.Cl.N)
+				if len(li.BackPreds) > 1 {
+					name += fmt.Sprintf("@%s", save.Name)
+				}
+				fc.assert("assert", name, sc.trBool(aa.Cl.E), aa.Cl.Src, li.MinPos, false)
+			}
+		}
+	}
+	if li.Spec != nil {
+		sc := fc.loopScope(li, fc.env)
 		if li.hasVar {
 			v, _ := sc.tr(li.Spec.Decreases.E)
 			name := fmt.Sprintf("%s:%s.decreases", fc.name, lname)
@@ -503,6 +595,11 @@ func (fc *FnCtx) checkUnmatched() {
 	for _, cs := range c.Calls {
 		if cs.Matched == 0 {
 			fc.assertUnmatched(fmt.Sprintf("%s:call(%s)#%d.unmatched", fc.name, cs.Callee, cs.Ord), "call-site clause matches no call in the function")
+		}
+	}
+	for _, aa := range c.Asserts {
+		if aa.Matched == 0 {
+			fc.assertUnmatched(fmt.Sprintf("%s:at(%s %s#%d).unmatched", fc.name, aa.Anchor, aa.Var, aa.Ord), "anchored clause matches no program point")
 		}
 	}
 	if len(c.Ensures) > 0 && fc.counters["return"] == 0 {
